@@ -41,6 +41,9 @@ fn main() {
     if let Some(k) = arg(&args, "--known") {
         ctx.known = k.split(',').filter(|s| !s.is_empty()).map(|s| s.to_string()).collect();
     }
+    if let Some(o) = arg(&args, "--only") {
+        ctx.only = o.split(',').filter(|s| !s.is_empty()).map(|s| s.to_string()).collect();
+    }
     if let Some(s) = arg(&args, "--scale") {
         ctx.scale = s.parse().unwrap_or(1.0);
     }
